@@ -20,6 +20,7 @@ import PolytuneModel.Proto.ABitCheck
 import PolytuneModel.Prim.TransposePortable
 import PolytuneModel.Prim.TransposeAvx
 import PolytuneModel.Http.Api
+import PolytuneModel.Proto.Fpre
 /-! `ptmodel`: one request per line on stdin, one response per line on stdout. -/
 open PolytuneModel PolytuneModel.Buf
 
@@ -283,6 +284,19 @@ def step (st : DState) (line : String) : DState × String :=
       let showS (s : Share) : String := ",".intercalate ((if s.bit then "1" else "0") :: (List.range n).flatMap fun j => [natHex (s.mac j).toNat, natHex (s.key j).toNat])
       (st, "combine " ++ showS x ++ " " ++ showS (get 1) ++ " " ++ showS z)
     | _, _, _ => (st, "bad-op")
+  | ["fpre", n, deltas, bits, keys] =>
+    -- the dealer's share for every party from what it sampled: deltas[j], bits[i] (0/1 string), keys[i][j] flattened row by row; answer: per party `bit,mac_0,key_0,…`
+    match n.toNat?, parseHexList deltas, parseHexList keys with
+    | some n, some ds, some ks =>
+      let bs := bits.toList.map (· == '1')
+      let sh (i : Nat) : Share := dealerShare (fun j => BitVec.ofNat 128 (ds.getD j 0)) (fun i => bs.getD i false) (fun a b => BitVec.ofNat 128 (ks.getD (a * n + b) 0)) i
+      let showS (s : Share) : String := ",".intercalate ((if s.bit then "1" else "0") :: (List.range n).flatMap fun j => [natHex (s.mac j).toNat, natHex (s.key j).toNat])
+      (st, "fpre " ++ " ".intercalate ((List.range n).map fun i => showS (sh i)))
+    | _, _, _ => (st, "bad-op")
+  | ["fpreand", n, rbits, c] =>
+    match n.toNat? with
+    | some n => let rs := rbits.toList.map (· == '1'); (st, "fpreand " ++ String.ofList ((List.range n).map fun i => if dealerAndBit n (fun k => rs.getD k false) (c == "1") i then '1' else '0'))
+    | none => (st, "bad-op")
   | ["combinebucket", n, b, flat, dbits] =>
     -- flat = 3·b shares of one party (x_0 y_0 z_0 x_1 y_1 z_1 …); dbits = the b-1 public d-values; result = `combineBucket` of C10_bucket
     match n.toNat?, b.toNat?, parseHexList flat with
